@@ -402,7 +402,10 @@ class SqlalchemyRender:
             arg = t.args[0].to_string()
             from_arg = self.to_expression(t.from_arg)
 
-            fnc = op(arg, from_arg)
+            try:
+                fnc = op(arg, from_arg)
+            except (TypeError, AssertionError) as e:
+                raise NotImplementedError(f'Function {t.op}: {e}')
         else:
             args = [
                 self.to_expression(i)
@@ -413,7 +416,7 @@ class SqlalchemyRender:
                 args[0] = args[0].distinct()
             try:
                 fnc = op(*args)
-            except TypeError as e:
+            except (TypeError, AssertionError) as e:
                 raise NotImplementedError(f'Function {t.op}: {e}')
         return fnc
 
